@@ -884,7 +884,7 @@ SolverOption::WCHeadTail SolverOption::wc_split(
 bool SolverOption::wc_match(const std::string &key) {
   for (const auto& wcht: wc_headtails_) {
     if (0==key.rfind(wcht.first, 0) &&
-        key.size()>wcht.second.size() &&
+        key.size()>=wcht.first.size()+wcht.second.size() &&
         key.size()-wcht.second.size() ==
           key.rfind((wcht.second))) {
       wc_key_last_ = key;
